@@ -168,8 +168,8 @@ TEXT = {
               "TLC exhaustive on DirectCount.tla (design, both variants) + TLC-generated schedules replayed on the real gateway, traces validated by the observer spec"),
     "C09": _t("MQ boundary rules (get only under an established event subscription, no duplicate subscription), use count = subscribers at quiescence, nothing left after the (fake-time) eviction delay, gauges zero.", TECH),
     "C10": _t("Every client frame scanned for every live connection id; every connection-bound request must carry the id of a live connection and its token; a token reset's auth request only for a connection whose own non-empty token id is listed (resets listing an empty id, connections without a token id).", TECH),
-    "C11": _t("Disconnects at arbitrary points of the schedules; after the connection's conn subscription is removed no request may carry its id, it must be gone from the snapshot, use counts must match subscribers. spec/ConnQueue.tla (Enqueue / outputWorker / dispose of a connection: every accepted closure runs exactly once in order, also those queued behind the dispose closure, refusals only after it, the worker leaves exactly when everything has run) is model-checked exhaustively; the cq* notes of every gateway trace are replayed against it by ConnQueueTrace.tla; spec/ConnQueueInd.tla (its counting abstraction) carries an inductive invariant that Apalache checks, so the safety part holds for any number of closures.",
-              "TLC exhaustive on ConnQueue.tla + Apalache inductive invariant (ConnQueueInd.tla) + TLC-generated schedules with disconnects replayed on the real gateway, traces validated by the observer spec (incl. the ConnQueueTrace replay)"),
+    "C11": _t("Disconnects at arbitrary points of the schedules; after the connection's conn subscription is removed no request may carry its id, it must be gone from the snapshot, use counts must match subscribers. spec/ConnQueue.tla (Enqueue / outputWorker / dispose of a connection: every accepted closure runs exactly once in order, also those queued behind the dispose closure, refusals only after it, the worker leaves exactly when everything has run) is model-checked exhaustively; the cq* notes of every gateway trace are replayed against it by ConnQueueTrace.tla; spec/ConnQueueInd.tla (its counting abstraction) carries an inductive invariant that Apalache checks, and spec/ConnQueueProof.tla proves it with TLAPS, so the safety part holds for any number of closures.",
+              "TLAPS proof (ConnQueueProof.tla) + TLC exhaustive on ConnQueue.tla + Apalache inductive invariant (ConnQueueInd.tla) + TLC-generated schedules with disconnects replayed on the real gateway, traces validated by the observer spec (incl. the ConnQueueTrace replay)"),
     "C13": _t("Query families: aliasing queries, query events with every answer kind; convergence (C01 predicate) per alias rid, lock released at quiescence, no stall.", TECH),
     "C12": _t("spec/ResSub.tla (cached content against an ordered service channel: initial get, state / custom events, silent mutations revealed by resets, re-fetch) is model-checked exhaustively: no gap, subscribers told what the cache holds, convergence, one re-fetch at a time, every reset eventually re-fetched. Pattern matching and both diff routines are checked exhaustively over bounded domains against definitional TLA+ modules (spec/fn/ResPattern.tla, ResDiff.tla); the protocol part (re-fetch of exactly the matching cached resources, convergence after silent mutations + reset) is checked on replayed schedules by the observer.",
               "TLC exhaustive on ResSub.tla + exhaustive function tables checked by TLC against spec/fn + TLC-generated schedules with resets validated by the observer spec",
@@ -387,7 +387,18 @@ def connqueue_model(ctx):
     from .common import apalache_inductive
     shutil.copy(os.path.join(SPEC, "ConnQueueInd.tla"), d)
     ind = apalache_inductive("ConnQueueInd.tla", d)
-    cov = dict(states=dist, transitions=g, samples=[{"inductive": "spec/ConnQueueInd.tla: Init => IndInv, IndInv /\\ Next => IndInv', IndInv => OneToken /\\ NoSendClosed /\\ RefusedLate /\\ DoneComplete /\\ OnlyDisposedLeaves - %d Apalache runs, any number of closures" % ind},
+    # and the same invariant as a TLAPS proof (no bound at all, also on the integers Apalache samples)
+    import re as _re
+    from .common import run as _run
+    pd = os.path.join(d, "proof")
+    os.makedirs(pd, exist_ok=True)
+    shutil.copy(os.path.join(SPEC, "ConnQueueProof.tla"), pd)
+    pr0 = _run(["timeout", "900", "tlapm", "--threads", "8", "ConnQueueProof.tla"], cwd=pd, check=False)
+    mm = _re.search(r"All (\d+) obligations? proved", pr0.stdout)
+    if not mm:
+        raise MachineryError("tlapm did not prove ConnQueueProof.tla:\n" + pr0.stdout[-1500:])
+    cov = dict(states=dist, transitions=g, samples=[{"tlaps": "spec/ConnQueueProof.tla: THEOREM Spec => []Safety (one token, nothing sent on the closed channel, refusals only while disposing, the worker leaves only with everything accepted run) for any number of closures, %s proof obligations discharged by tlapm" % mm.group(1)},
+                                                    {"inductive": "spec/ConnQueueInd.tla: Init => IndInv, IndInv /\\ Next => IndInv', IndInv => OneToken /\\ NoSendClosed /\\ RefusedLate /\\ DoneComplete /\\ OnlyDisposedLeaves - %d Apalache runs, any number of closures" % ind},
                                                     {"model": "spec/ConnQueue.tla MaxWork=%d: producers enqueue work and dispose closures at any time; invariants FIFO OneToken NoSendClosed RefusedLate DoneComplete OnlyDisposedLeaves, liveness AllRun Leaves; negative check: a worker that drops what is queued behind the dispose closure violates DoneComplete" % n}],
                rule="exhaustive TLC on ConnQueue.tla; the code is bound to it by the cq* notes (taken under the connection's mutex) replayed by ConnQueueTrace.tla inside the observer on every gateway trace, per connection object", exhaustive=False)
     return dict(coverage=cov, violations=[], level="model_checking", assumptions=[])
